@@ -78,7 +78,7 @@ func init() {
 		switch f[0] {
 		case "sid":
 			fmt.Println(verifHex(shortID(string(verifUnhex(f[1])), verifUnhex(f[2]))))
-		case "cis":
+		case "cis", "cisn":
 			// cis <profile specs> (<peerip>;<machex|->;<names by addr>;<names by mac>)+   one daemon lifetime, several clients
 			var conf config.Profiles
 			for _, sp := range verifList(f[1]) {
@@ -86,7 +86,12 @@ func init() {
 			}
 			p := &proxySvc{resolver: &resolver.DNS{}}
 			src := verifVarSource{cur: &verifSource{}}
-			setupClientReporting(p, &conf, discovery.Resolver{src})
+			if f[0] == "cisn" {
+				// the daemon listening on the local host only: run.go hands over no discovery source at all
+				setupClientReporting(p, &conf, discovery.Resolver{})
+			} else {
+				setupClientReporting(p, &conf, discovery.Resolver{src})
+			}
 			var outs []string
 			for _, qs := range f[2:] {
 				t := strings.Split(qs, ";")
